@@ -278,15 +278,21 @@ var _ = core.Sub
 func c08OrphanBody(c *core.Ctx) {
 	self, _ := os.Executable()
 	shapes := []c08Shape{{Name: "orphan-step", Steps: 2, SlowMs: 2500}, {Name: "orphan-step+handlers", Steps: 2, Handler: true, SlowMs: 2500}, {Name: "orphan-step+output", Steps: 2, Output: true, SlowMs: 2500}}
-	delays := []int{0, 40, 400}
+	// a negative delay: the same kill, but the checks are made while the killed agent has not
+	// been reaped by its parent yet (a zombie: its process ID still exists)
+	delays := []int{0, 40, 400, -40}
 	idx := 0
 	for _, sh := range shapes {
 		for _, delay := range delays {
+			unreaped := delay < 0
+			if unreaped {
+				delay = -delay
+			}
 			if !c.Mine(idx) {
 				idx++
 				continue
 			}
-			desc := map[string]any{"shape": sh.Name, "agent_killed_ms_after_the_step_began": delay}
+			desc := map[string]any{"shape": sh.Name, "agent_killed_ms_after_the_step_began": delay, "agent_not_reaped_during_the_checks": unreaped}
 			c.Begin(idx, desc)
 			func() {
 				h, err := newBDHome(c, "c08o-")
@@ -307,7 +313,11 @@ func c08OrphanBody(c *core.Ctx) {
 					return
 				}
 				waited := make(chan struct{})
-				go func() { _ = cmd.Wait(); close(waited) }()
+				reap := make(chan struct{})
+				go func() { <-reap; _ = cmd.Wait(); close(waited) }()
+				if !unreaped {
+					close(reap)
+				}
 				began := false
 				for i := 0; i < 4000 && !began; i++ {
 					for _, e := range readMarker(marker) {
@@ -321,16 +331,41 @@ func c08OrphanBody(c *core.Ctx) {
 				}
 				if !began {
 					_ = syscall.Kill(-cmd.Process.Pid, syscall.SIGKILL)
+					if unreaped {
+						close(reap)
+					}
 					c.Inconclusive("c08 orphan: the second step never began")
 					return
 				}
 				time.Sleep(time.Duration(delay) * time.Millisecond)
 				_ = syscall.Kill(cmd.Process.Pid, syscall.SIGKILL) // the agent only
-				<-waited
+				label := "orphan|" + sh.Name
+				if unreaped {
+					label = "orphan-unreaped|" + sh.Name
+					dead := false
+					for i := 0; i < 2000 && !dead; i++ {
+						b, _ := os.ReadFile(fmt.Sprintf("/proc/%d/stat", cmd.Process.Pid))
+						if j := strings.LastIndexByte(string(b), ')'); j >= 0 && strings.HasPrefix(string(b[j+1:]), " Z") {
+							dead = true
+						} else {
+							time.Sleep(time.Millisecond)
+						}
+					}
+					if !dead {
+						close(reap)
+						<-waited
+						c.Inconclusive("c08 orphan: the killed agent did not become a zombie")
+						return
+					}
+					c.Count("orphan_checks_with_the_agent_unreaped", 1)
+					defer func() { close(reap); <-waited }()
+				} else {
+					<-waited
+				}
 				c.Eval(1)
 				c.Count("orphan_kills", 1)
-				c08AfterKill(c, idx, self, sh, h, marker, loc, "orphan|"+sh.Name, desc)
-				c.Sig("orphan", sh.Name, delay)
+				c08AfterKill(c, idx, self, sh, h, marker, loc, label, desc)
+				c.Sig("orphan", sh.Name, delay, unreaped)
 				c.Sample(desc)
 			}()
 			c.End(idx)
